@@ -20,12 +20,17 @@ type c07Provider struct {
 	latency time.Duration
 	fail    bool
 	honour  bool // gives up (context.Canceled) when the caller's context ends first
+	never   bool // (with honour) never answers: only the end of its context makes it return
 	data    *phase0.Attestation
 	calls   int
 }
 
 func (p *c07Provider) AggregateAttestation(ctx context.Context, _ *api.AggregateAttestationOpts) (*api.Response[*phase0.Attestation], error) {
 	p.calls++
+	if p.honour && p.never {
+		<-ctx.Done()
+		return nil, ctx.Err()
+	}
 	if p.honour {
 		select {
 		case <-ctx.Done():
@@ -59,6 +64,10 @@ func c07First(n int, honour bool) (left int) {
 		p.latency = time.Duration(vnd.I64("latency"))
 		vnd.Assume(p.latency >= 0 && p.latency <= 120000)
 		p.fail = vnd.Bool("fail")
+		if honour && vnd.Bool("never-answers") {
+			// a node that hangs for good: as far as the strategy can tell, one that fails after the timeout
+			p.never, p.fail = true, true
+		}
 		p.data = &phase0.Attestation{Data: &phase0.AttestationData{Slot: 5, Index: phase0.CommitteeIndex(i), Source: &phase0.Checkpoint{}, Target: &phase0.Checkpoint{}}}
 		provs[i] = p
 		providers[p.name] = p
@@ -69,6 +78,8 @@ func c07First(n int, honour bool) (left int) {
 	elapsed := time.Duration(vnd.NowNs() - start)
 	vnd.Assert(elapsed <= timeout, "C07.aggfirst.returns-within-timeout")
 	left = vnd.Quiesce()
+	// every request ends with the call: answered, failed, or given up when the call's own context ended
+	vnd.Assert(left == 0, "C20.first.no-request-outlives-the-call")
 	anyInTime := false
 	for _, p := range provs {
 		vnd.Assert(p.calls == 1, "C07.aggfirst.every-provider-asked-once")
